@@ -19,6 +19,10 @@ type Link struct {
 	Mid   []vkit.P2 `json:"mid,omitempty"`
 	Speed float64   `json:"speed"`
 	Rev   bool      `json:"rev,omitempty"` // geometry given from B to A
+	// JitA/JitB: the link's end points are the node coordinates times (1+Jit*1e-13): within the relative tolerance of
+	// the node identification but not bit-identical (as coordinates that went through arithmetic are)
+	JitA [2]int `json:"jit_a,omitempty"`
+	JitB [2]int `json:"jit_b,omitempty"`
 }
 
 type Case struct {
@@ -45,6 +49,12 @@ func gen(t *rapid.T) Case {
 		used[[2]int{x, y}] = true
 		c.Nodes = append(c.Nodes, vkit.MkP(float64(10+2*x), float64(10+2*y))) // spacing 2, away from 0
 	}
+	// quadrant: all coordinates positive, or x and/or y negative (mirror image)
+	sx, sy := rapid.SampledFrom([]float64{1, 1, -1}).Draw(t, "sx"), rapid.SampledFrom([]float64{1, 1, -1}).Draw(t, "sy")
+	for i, p := range c.Nodes {
+		c.Nodes[i] = vkit.MkP(sx*float64(p[0]), sy*float64(p[1]))
+	}
+	jitter := rapid.Bool().Draw(t, "jitter")
 	has := map[[2]int]bool{}
 	addLink := func(a, b int) {
 		if a == b {
@@ -58,6 +68,10 @@ func gen(t *rapid.T) Case {
 		}
 		has[[2]int{a, b}] = true
 		l := Link{A: a, B: b, Speed: rapid.OneOf(rapid.Float64Range(0.1, 100), rapid.SampledFrom([]float64{1, 1, 10, 0.5})).Draw(t, "speed"), Rev: rapid.Bool().Draw(t, "rev")}
+		if jitter {
+			l.JitA = [2]int{rapid.IntRange(-3, 3).Draw(t, "ja"), rapid.IntRange(-3, 3).Draw(t, "jb")}
+			l.JitB = [2]int{rapid.IntRange(-3, 3).Draw(t, "jc"), rapid.IntRange(-3, 3).Draw(t, "jd")}
+		}
 		k := rapid.IntRange(0, 4).Draw(t, "nmid")
 		pa, pb := c.Nodes[a], c.Nodes[b]
 		for i := 1; i <= k; i++ {
@@ -85,16 +99,20 @@ func gen(t *rapid.T) Case {
 			p := c.Nodes[rapid.IntRange(0, n-1).Draw(t, lbl+"node")]
 			return vkit.MkP(float64(p[0])+rapid.Float64Range(-0.9, 0.9).Draw(t, lbl+"dx"), float64(p[1])+rapid.Float64Range(-0.9, 0.9).Draw(t, lbl+"dy"))
 		}
-		return vkit.MkP(rapid.Float64Range(5, float64(15+2*w)).Draw(t, lbl+"x"), rapid.Float64Range(5, float64(15+2*w)).Draw(t, lbl+"y"))
+		return vkit.MkP(sx*rapid.Float64Range(5, float64(15+2*w)).Draw(t, lbl+"x"), sy*rapid.Float64Range(5, float64(15+2*w)).Draw(t, lbl+"y"))
 	}
 	c.From, c.To = q("from"), q("to")
 	return c
 }
 
+func jit(p vkit.P2, j [2]int) vkit.P2 {
+	return vkit.MkP(float64(p[0])*(1+float64(j[0])*1e-13), float64(p[1])*(1+float64(j[1])*1e-13))
+}
+
 func lineOf(c Case, l Link) geom.LineString {
-	pts := []vkit.P2{c.Nodes[l.A]}
+	pts := []vkit.P2{jit(c.Nodes[l.A], l.JitA)}
 	pts = append(pts, l.Mid...)
-	pts = append(pts, c.Nodes[l.B])
+	pts = append(pts, jit(c.Nodes[l.B], l.JitB))
 	ls := make(geom.LineString, len(pts))
 	for i, p := range pts {
 		if l.Rev {
@@ -214,9 +232,13 @@ func run(c Case) (v vkit.Verdict) {
 		return v.Fail("startDistance/endDistance = %v/%v, distances to the nearest network nodes are %v/%v", sd, ed, ds, de)
 	}
 	// identify the returned pieces with input links
-	nodeAt := map[geom.Point]int{}
-	for i, q := range c.Nodes {
-		nodeAt[q.Pt()] = i
+	nodeOf := func(p geom.Point) (int, bool) {
+		for i, q := range c.Nodes {
+			if math.Abs(float64(q[0])-p.X) < 1e-6 && math.Abs(float64(q[1])-p.Y) < 1e-6 {
+				return i, true
+			}
+		}
+		return 0, false
 	}
 	var chain []int
 	var sumD, sumT float64
@@ -224,8 +246,8 @@ func run(c Case) (v vkit.Verdict) {
 		if len(piece) < 2 {
 			return v.Fail("route piece %d has %d vertices", k, len(piece))
 		}
-		a, okA := nodeAt[piece[0]]
-		b, okB := nodeAt[piece[len(piece)-1]]
+		a, okA := nodeOf(piece[0])
+		b, okB := nodeOf(piece[len(piece)-1])
 		li, okL := byEnds[lk{a, b}]
 		if !okA || !okB || !okL {
 			return v.Fail("route piece %d is not one of the links", k)
@@ -315,7 +337,7 @@ func run(c Case) (v vkit.Verdict) {
 func TestProp(t *testing.T) {
 	vkit.Main(t, vkit.Spec[Case]{
 		ID: "C19",
-		Rule: "rapid: networks of 2-120 nodes on a lattice (spacing 2, coordinates >=10 so that the relative-tolerance node identification is unambiguous), links from a drawn AddLink " +
+		Rule: "rapid: networks of 2-120 nodes on a lattice (spacing 2, |coordinates| >=10 in a drawn quadrant, so that the relative-tolerance node identification is unambiguous; in half of the networks the link end points differ from the node coordinates by a few 1e-13 relative, i.e. they are equal within the tolerance but not bit-identical), links from a drawn AddLink " +
 			"history: a random spanning tree over a drawn prefix of the nodes plus 0-2n random extra links, no self-loops or parallel links, each link a polyline with 0-4 jittered " +
 			"intermediate vertices given in either direction, speeds in [0.1,100]; both Distance and Time; query points near nodes or anywhere. Oracle: Dijkstra on a reference graph; the " +
 			"returned pieces must be input links forming a walk from a nearest node of the start point to a nearest node of the end point, reported totals = sums over the chain, " +
